@@ -7,6 +7,7 @@ use rbx_dom_weak::WeakDom;
 use rbx_reflection::{PropertyKind, PropertySerialization};
 use rbx_types::*;
 use rbx_xml::verif::{find_canonical_property_descriptor, find_serialized_property_descriptor};
+use rbx_dom_weak::types::VariantType;
 use std::collections::{BTreeMap, BTreeSet, HashMap};
 
 /// is the property (spelling `k` of class `class`, value `v`) inside C06's quantifier?  Returns the canonical name it denotes.
@@ -23,7 +24,15 @@ pub fn prop_scope(class: &str, k: &str, v: &Variant, labels: &BTreeSet<u64>) -> 
     if is_migrate(c) || is_migrate(s) || k == "Name" {
         return None;
     }
-    if v.ty() != data_type_vt(&c.data_type) || v.ty() != data_type_vt(&s.data_type) {
+    let (ct, st) = (data_type_vt(&c.data_type), data_type_vt(&s.data_type));
+    // a value of the declared type, or one of the kinds both formats coerce to it in the same way (Proofs/CrossFormat.v:
+    // cross_int32_as_int64, cross_float32_as_float64, cross_color3_as_color3uint8)
+    let coercible = ct == st
+        && matches!(
+            (v.ty(), ct),
+            (VariantType::Int32, VariantType::Int64) | (VariantType::Float32, VariantType::Float64) | (VariantType::Color3, VariantType::Color3uint8)
+        );
+    if !coercible && (v.ty() != ct || v.ty() != st) {
         return None;
     }
     match v {
